@@ -1,5 +1,7 @@
 from cacheprops import CACHE_TB, CACHE_ASSUMPTIONS, ca_component
 
+import facts
+
 ID = "C14"
 PROP = {
     "modules": ["Gnmi.Props.C14"],
@@ -23,3 +25,4 @@ PROP = {
         "technique": "Lean 4 proof (frame lemmas over the target map, invariant-based Reset theorem) + model/implementation correspondence",
     },
 }
+PROP.setdefault("pre", []).append(facts.make_step(['cache.reset.order', 'cache.remove.announces']))
